@@ -211,6 +211,7 @@ def readCoder : P Coder := do
     else pure (1, 1) : P (Nat × Nat))
   let props ← (if hasattr then do
       let len ← pNumber
+      if len ≥ 2 ^ 63 then fail .malformed else    -- OverflowError in file.read
       let pr ← readBytes len
       pure (some pr)
     else pure none : P (Option Bytes))
@@ -497,6 +498,8 @@ def readFileProps : Nat → Nat → FilesInfo → Nat → P FilesInfo
     let prop ← read1
     if prop = some 0 then pure fi else
     let size ← pNumber
+    -- `fp.read(size)` / `fp.seek(size, SEEK_CUR)` raise OverflowError for sizes beyond ssize_t
+    if size ≥ 2 ^ 63 then fail .malformed else
     if prop = some 0x19 then do
       let _ ← readBytes size            -- fp.seek(size, SEEK_CUR)
       readFileProps fuel numfiles fi numEmpty
